@@ -43,6 +43,7 @@ func runC05(r *simkit.Run) {
 	w := newWorldC(r, n, t, simnet.Config{MinDelay: time.Millisecond, MaxDelay: 10 * time.Millisecond})
 	defer w.close()
 	w.fl = flavour(c.Intn(5, "flavour"))
+	w.emptySetZero = c.Bool("empty-initial-keyper-set-known")
 	for i := 0; i < n; i++ {
 		w.addNode(fmt.Sprintf("k%d", i), i, dkgSuccess, nil)
 	}
@@ -103,6 +104,22 @@ func runC05(r *simkit.Run) {
 			}
 			return &p2pmsg.DecryptionKeys{InstanceId: cInstanceID, Eon: cOrphanEon, Keys: []*p2pmsg.Key{{IdentityPreimage: id, Key: k.Marshal()}},
 				Extra: &p2pmsg.DecryptionKeys_Gnosis{Gnosis: &p2pmsg.GnosisDecryptionKeysExtra{Slot: 3, TxPointer: 0, SignerIndices: signers, Signatures: sigs}}}, "keys-of-orphan-eon"
+		}
+		if w.emptySetZero && c.Chance(80, "keys-for-empty-keyper-set") {
+			// a keys message for the empty initial keyper set (threshold 0): no signers, no signatures
+			var extra *p2pmsg.GnosisDecryptionKeysExtra
+			if c.Bool("nil-lists") {
+				extra = &p2pmsg.GnosisDecryptionKeysExtra{Slot: 3, TxPointer: 0}
+			} else {
+				extra = &p2pmsg.GnosisDecryptionKeysExtra{Slot: 3, TxPointer: 0, SignerIndices: []uint64{}, Signatures: [][]byte{}}
+			}
+			k, _ := w.keys.EpochSecretKey(identitypreimage.IdentityPreimage(id))
+			if w.fl == flService {
+				return &p2pmsg.DecryptionKeys{InstanceId: cInstanceID, Eon: 0, Keys: []*p2pmsg.Key{{IdentityPreimage: id, Key: k.Marshal()}},
+					Extra: &p2pmsg.DecryptionKeys_Service{Service: &p2pmsg.ShutterServiceDecryptionKeysExtra{}}}, "keys-for-empty-keyper-set"
+			}
+			return &p2pmsg.DecryptionKeys{InstanceId: cInstanceID, Eon: 0, Keys: []*p2pmsg.Key{{IdentityPreimage: id, Key: k.Marshal()}},
+				Extra: &p2pmsg.DecryptionKeys_Gnosis{Gnosis: extra}}, "keys-for-empty-keyper-set"
 		}
 		switch c.Intn(5, "base-type") {
 		case 0:
